@@ -31,8 +31,32 @@ def parseEntries (id : Nat) (ts : List String) : Option (List Entry) :=
 
 abbrev St := Option (Cfg × State)
 
+/-- justify entries of a restart line: `-` or entries joined by `,`, signatures over proposal `id` -/
+def parseCert (id : Nat) (t : String) : Option (List Entry) :=
+  if t == "-" then some [] else parseEntries id (t.splitOn ",")
+
+def fmtLogs (s : State) : String :=
+  " ".intercalate ((List.range s.nodes.length).map (fun i => "log" ++ toString i ++ "=" ++ fmtLog ((logOf s.log i).getD [])))
+
 def step (st : St) (line : String) : St × String :=
   match words line with
+  | ["reset", kind, n, col, start, tip, j1, j2, j3] =>
+    match n.toNat?, col.toNat?, start.toNat?, tip.toNat? with
+    | some n, some col, some start, some tip =>
+      if !(kind == "xp" || kind == "td") || n < 1 || n > 40 || col ≥ 90 || start < 1 || tip + 1 < start || tip > 60 then (st, "bad-op")
+      else
+        let r := rootHeight start tip
+        -- the justify of block b certifies block b-1
+        match parseCert (relId r (tip - 3)) j1, parseCert (relId r (tip - 2)) j2, parseCert (relId r (tip - 1)) j3 with
+        | some e1, some e2, some e3 =>
+          if (e1 ++ e2 ++ e3).any (fun e => e.addr ≥ 90) then (st, "bad-op")
+          else
+            let just : Nat → List Entry := fun b =>
+              if b ≤ start then [] else if b == tip then e3 else if b + 1 == tip then e2 else if b + 2 == tip then e1 else []
+            let s := restart col start tip just
+            (some (⟨n, 0, 0, 0⟩, s), obs s ++ " " ++ fmtLogs s)
+        | _, _, _ => (st, "bad-op")
+    | _, _, _, _ => (st, "bad-op")
   | ["reset", n, col] =>
     match n.toNat?, col.toNat? with
     | some n, some col => if n ≥ 1 then (some (⟨n, 0, 0, 0⟩, init col), "ok") else (st, "bad-op")
